@@ -19,7 +19,31 @@ use qvlib::{catch, json, panic_key, Ctx, Local, Value};
 
 use crate::refmodel::{is_wildcard, RefStore, Resolved, Rr};
 
+/// The apex the menus are written for; the other apexes are reached by
+/// rewriting the trailing `t.` of every menu name (see `re_apex`).
 const APEX: &str = "t.";
+/// Apexes explored: the plain one, an apex that is itself a wildcard name,
+/// and a plain apex below a wildcard label.
+const APEXES: [&str; 3] = [APEX, "*.z.", "q.*.z."];
+
+/// `name` with its trailing label `t.` replaced by `apex` (upper-cased if the
+/// label was `T.`); names outside `t.` are returned unchanged.
+fn re_apex(name: &str, apex: &str) -> String {
+    if apex == APEX {
+        return name.to_string();
+    }
+    let (head, upper) = if let Some(h) = name.strip_suffix("t.") {
+        (h, false)
+    } else if let Some(h) = name.strip_suffix("T.") {
+        (h, true)
+    } else {
+        return name.to_string();
+    };
+    if !(head.is_empty() || head.ends_with('.')) {
+        return name.to_string();
+    }
+    format!("{head}{}", if upper { apex.to_ascii_uppercase() } else { apex.to_string() })
+}
 const TTL: u32 = 60;
 
 // ---------------------------------------------------------------- the oracle
@@ -228,7 +252,8 @@ fn it(owner: &'static str, typ: u16, rd: Rd) -> Item {
     Item { owner, typ, rd }
 }
 
-fn materialize(item: &Item, class: u16) -> Rr {
+fn materialize(item: &Item, class: u16, apex: &str) -> Rr {
+    let wn_of = |n: &str| wire::wname(&re_apex(n, apex));
     let rd: Vec<u8> = match &item.rd {
         Rd::Addr4 => {
             if class == c::CH {
@@ -241,15 +266,15 @@ fn materialize(item: &Item, class: u16) -> Rr {
             }
         }
         Rd::Addr6 => vec![0x20, 1, 0xd, 0xb8, 0, 0, 0, 0, 0, 0, 0, 0, 0, 0, 0, 1],
-        Rd::Name(n) => wire::wname(n),
+        Rd::Name(n) => wn_of(n),
         Rd::Mx(n) => {
             let mut v = vec![0, 10];
-            v.extend_from_slice(&wire::wname(n));
+            v.extend_from_slice(&wn_of(n));
             v
         }
         Rd::Soa(serial) => {
-            let mut v = wire::wname("ns.t.");
-            v.extend_from_slice(&wire::wname("hm.t."));
+            let mut v = wn_of("ns.t.");
+            v.extend_from_slice(&wn_of("hm.t."));
             for x in [*serial, 2, 3, 4, 5] {
                 v.extend_from_slice(&x.to_be_bytes());
             }
@@ -258,7 +283,7 @@ fn materialize(item: &Item, class: u16) -> Rr {
         Rd::Txt => b"\x01x".to_vec(),
         Rd::Raw(b) => b.to_vec(),
     };
-    Rr { owner: wire::wname(item.owner), typ: item.typ, class, ttl: TTL, rdata: rd }
+    Rr { owner: wn_of(item.owner), typ: item.typ, class, ttl: TTL, rdata: rd }
 }
 
 /// The healthy base: one SOA, one apex NS whose server has an address.
@@ -426,18 +451,18 @@ fn policy_text(wide: bool) -> &'static str {
     }
 }
 
-fn case_json(class: u16, wide: bool, recs: &[Rr], v: &Verdict) -> Value {
+fn case_json(apex: &str, class: u16, wide: bool, recs: &[Rr], v: &Verdict) -> Value {
     json!({
-        "apex": APEX, "class": class, "glue_policy": policy_text(wide),
+        "apex": apex, "class": class, "glue_policy": policy_text(wide),
         "records": recs.iter().map(|r| r.to_json()).collect::<Vec<_>>(),
         "validate_reported": v.got, "reference_requires": v.must, "reference_accepts_either_way": v.may, "undetermined_because": v.decisions,
         "what": v.bad.as_ref().map(|b| b.1.clone()),
     })
 }
 
-fn build(class: u16, wide: bool, recs: &[Rr]) -> Result<(HashMapTreeZone, RefStore), String> {
-    let mut zone = HashMapTreeZone::new(qname(&wire::wname(APEX)), Class::from(class), if wide { GluePolicy::Wide } else { GluePolicy::Narrow });
-    let mut model = RefStore::new(&wire::wname(APEX), class);
+fn build(apex: &str, class: u16, wide: bool, recs: &[Rr]) -> Result<(HashMapTreeZone, RefStore), String> {
+    let mut zone = HashMapTreeZone::new(qname(&wire::wname(apex)), Class::from(class), if wide { GluePolicy::Wide } else { GluePolicy::Narrow });
+    let mut model = RefStore::new(&wire::wname(apex), class);
     for r in recs {
         add(&mut zone, &mut model, r)?;
     }
@@ -457,6 +482,7 @@ const DECISIONS: [&str; 3] = ["target synthesised from a wildcard that owns NS",
 static DECISION_ZONES: [AtomicU64; 3] = [AtomicU64::new(0), AtomicU64::new(0), AtomicU64::new(0)];
 
 struct Walk<'a> {
+    apex: &'static str,
     class: u16,
     wide: bool,
     menu: &'a [Rr],
@@ -481,9 +507,9 @@ impl Walk<'_> {
             }
         }
         let recs = || -> Vec<Rr> { self.base.iter().cloned().chain(self.chosen.iter().map(|i| self.menu[*i].clone())).collect() };
-        l.outcome(&v.class, || case_json(self.class, self.wide, &recs(), &v));
+        l.outcome(&v.class, || case_json(self.apex, self.class, self.wide, &recs(), &v));
         if let Some((key, _)) = &v.bad {
-            l.violation(key, case_json(self.class, self.wide, &recs(), &v));
+            l.violation(key, case_json(self.apex, self.class, self.wide, &recs(), &v));
         }
     }
 
@@ -511,6 +537,7 @@ impl Walk<'_> {
 
 struct Family {
     label: &'static str,
+    apex: &'static str,
     class: u16,
     wide: bool,
     healthy: bool,
@@ -528,11 +555,13 @@ fn class_text(cl: u16) -> &'static str {
 }
 
 fn replay(ctx: Ctx, case: &Value) -> ! {
+    let apex = case.get("apex").and_then(|a| a.as_str()).unwrap_or(APEX).to_string();
+    let apex = apex.as_str();
     let class = case.get("class").and_then(|c| c.as_u64()).unwrap_or(1) as u16;
     let wide = case.get("glue_policy").and_then(|p| p.as_str()) == Some("Wide");
     let recs: Vec<Rr> = case.get("records").and_then(|o| o.as_array()).map(|a| a.iter().filter_map(Rr::from_json).collect()).unwrap_or_default();
     println!("replaying a zone of {} records, class {}, glue policy {}", recs.len(), class_text(class), policy_text(wide));
-    match build(class, wide, &recs) {
+    match build(apex, class, wide, &recs) {
         Err(e) => {
             eprintln!("bad replay case: {e}");
             std::process::exit(2);
@@ -543,7 +572,7 @@ fn replay(ctx: Ctx, case: &Value) -> ! {
             match &v.bad {
                 Some((key, what)) => {
                     println!("reproduced: {key}: {what}");
-                    ctx.violation(key, case_json(class, wide, &recs, &v));
+                    ctx.violation(key, case_json(apex, class, wide, &recs, &v));
                 }
                 None => println!("not reproduced: the case passes"),
             }
@@ -561,7 +590,7 @@ pub fn main(ctx: Ctx) -> ! {
     let mut families = Vec::new();
     for class in [c::IN, c::CH, c::HS] {
         for wide in [false, true] {
-            families.push(Family { label: "empty base", class, wide, healthy: false, max: k_all, malformed: false });
+            families.push(Family { label: "empty base", apex: APEX, class, wide, healthy: false, max: k_all, malformed: false });
             // One more record on top of the healthy base for the classes that
             // have address types (that is where glue and address issues live).
             let deep = match class {
@@ -569,15 +598,25 @@ pub fn main(ctx: Ctx) -> ! {
                 c::CH => k_deep_ch,
                 _ => k_all,
             };
-            families.push(Family { label: "healthy base (SOA, NS ns.t., ns.t. A)", class, wide, healthy: true, max: deep, malformed: false });
-            families.push(Family { label: "malformed NS/MX RDATA on the healthy base", class, wide, healthy: true, max: 2, malformed: true });
+            families.push(Family { label: "healthy base (SOA, NS ns.t., ns.t. A)", apex: APEX, class, wide, healthy: true, max: deep, malformed: false });
+            families.push(Family { label: "malformed NS/MX RDATA on the healthy base", apex: APEX, class, wide, healthy: true, max: 2, malformed: true });
+        }
+    }
+    // The same menus under the other apexes (names rewritten), one record
+    // shallower.
+    for apex in &APEXES[1..] {
+        for class in [c::IN, c::CH] {
+            for wide in [false, true] {
+                families.push(Family { label: "empty base, other apex", apex, class, wide, healthy: false, max: k_all - 1, malformed: false });
+                families.push(Family { label: "healthy base, other apex", apex, class, wide, healthy: true, max: k_all, malformed: false });
+            }
         }
     }
     // Shards: (family, first chosen menu index or none).
     let menus: Vec<(Vec<Rr>, Vec<Rr>)> = families
         .iter()
         .map(|f| {
-            let base: Vec<Rr> = if f.healthy { healthy_base().iter().map(|i| materialize(i, f.class)).collect() } else { vec![] };
+            let base: Vec<Rr> = if f.healthy { healthy_base().iter().map(|i| materialize(i, f.class, f.apex)).collect() } else { vec![] };
             let items = if f.malformed {
                 let mut m = malformed_menu();
                 m.extend(menu().into_iter().filter(|i| matches!(i.owner, "a.t." | "ns.a.t.") || i.typ == t::MX).take(8));
@@ -585,7 +624,7 @@ pub fn main(ctx: Ctx) -> ! {
             } else {
                 menu()
             };
-            (base, items.iter().map(|i| materialize(i, f.class)).collect())
+            (base, items.iter().map(|i| materialize(i, f.class, f.apex)).collect())
         })
         .collect();
     let mut shards: Vec<(usize, Option<usize>)> = Vec::new();
@@ -602,11 +641,11 @@ pub fn main(ctx: Ctx) -> ! {
     ctx.par_for_each(&shards, |l, (fi, first)| {
         let f = &families[*fi];
         let (base, menu) = &menus[*fi];
-        let (zone, model) = build(f.class, f.wide, base).unwrap_or_else(|e| {
+        let (zone, model) = build(f.apex, f.class, f.wide, base).unwrap_or_else(|e| {
             eprintln!("MACHINERY: {e}");
             std::process::exit(3)
         });
-        let mut w = Walk { class: f.class, wide: f.wide, menu, max: f.max, chosen: vec![], base, zones: 0, undetermined: 0 };
+        let mut w = Walk { apex: f.apex, class: f.class, wide: f.wide, menu, max: f.max, chosen: vec![], base, zones: 0, undetermined: 0 };
         match first {
             None => w.visit(l, &zone, &model),
             Some(i) => {
@@ -653,12 +692,12 @@ pub fn main(ctx: Ctx) -> ! {
             families
                 .iter()
                 .enumerate()
-                .map(|(i, f)| json!({"base": f.label, "class": class_text(f.class), "glue_policy": policy_text(f.wide), "menu_records": menus[i].1.len(), "max_added_records": f.max, "zones": per_family[i].0.load(Ordering::Relaxed), "zones_with_undetermined_issue": per_family[i].1.load(Ordering::Relaxed)}))
+                .map(|(i, f)| json!({"base": f.label, "apex": f.apex, "class": class_text(f.class), "glue_policy": policy_text(f.wide), "menu_records": menus[i].1.len(), "max_added_records": f.max, "zones": per_family[i].0.load(Ordering::Relaxed), "zones_with_undetermined_issue": per_family[i].1.load(Ordering::Relaxed)}))
                 .collect(),
         ),
     );
     ctx.set_extra("zones_touching_an_oracle_decision", json!(DECISIONS.iter().enumerate().map(|(i, d)| json!({"decision": d, "zones": DECISION_ZONES[i].load(Ordering::Relaxed)})).collect::<Vec<_>>()));
-    ctx.set_extra("menu", Value::Array(menu().iter().map(|i| materialize(i, c::IN).to_json()).collect()));
+    ctx.set_extra("menu", Value::Array(menu().iter().map(|i| materialize(i, c::IN, APEX).to_json()).collect()));
     ctx.set_extra(
         "oracle_decisions",
         json!([
@@ -674,7 +713,7 @@ pub fn main(ctx: Ctx) -> ! {
     );
     ctx.finish(
         "exploration",
-        "zones = base (empty | healthy) + every subset of <= max_added_records from the menu, x glue policy {Narrow, Wide} x class {IN, CH, HS}; oracle = independent reference checker (required set must be reported, nothing outside required + undetermined may be reported, warnings exactly MissingMxAddress and NsAtWildcard); evaluations = zones validated",
+        "zones = apex (t. | *.z. | q.*.z., menu names rewritten) x base (empty | healthy) + every subset of <= max_added_records from the menu, x glue policy {Narrow, Wide} x class {IN, CH, HS}; oracle = independent reference checker (required set must be reported, nothing outside required + undetermined may be reported, warnings exactly MissingMxAddress and NsAtWildcard); evaluations = zones validated",
         true,
     )
 }
